@@ -371,10 +371,10 @@ class PathCond:
                     else:
                         res = normalise_atom(e, by_val.get(val, str(val)))
                 else:
-                    res = (strip_transparent(e), val if val != "otherwise" else ("not-in", tuple(vals)))
+                    res = (strip_transparent(e), val if val != "otherwise" else ("not-in", tuple(sorted(vals))))
             else:
                 if val == "otherwise":
-                    res = (strip_transparent(e), ("not-in", tuple(vals)))
+                    res = (strip_transparent(e), ("not-in", tuple(sorted(vals))))
                 else:
                     res = (strip_transparent(e), val)
         self._edge_atoms[key] = res
